@@ -97,6 +97,65 @@ def jax_vi(seed, sample_mode, n_samples, configs):
     return out
 
 
+# ---- JAX driver split into segments by stop / resume -----------------------------------------------
+
+def jax_resume(seed, entries, scratch):
+    """An entry is [sample_mode, n_samples, total, cuts]: one uninterrupted optimize_kl run with an
+    output directory, and the same run stopped after each of `cuts` iterations and continued with
+    resume=True (same seed, same arguments, growing n_total_iterations)."""
+    import logging
+    import os
+    import shutil
+    import warnings
+
+    import jax
+    import jax.numpy as jnp
+    from jax import random
+    import nifty.re as jft
+    jft.logger.setLevel(logging.ERROR)
+    warnings.filterwarnings("ignore")
+
+    class Fwd(jft.Model):
+        def __init__(self):
+            super().__init__(domain={"a": jax.ShapeDtypeStruct((2,), jnp.float64)})
+
+        def __call__(self, x):
+            return jnp.exp(0.3 * x["a"]) + jnp.array([0.5, -0.25]) * x["a"][::-1]
+
+    lh = jft.Gaussian(jnp.array([1.25, 0.75]), noise_cov_inv=lambda x: 4.0 * x).amend(Fwd())
+    key = random.PRNGKey(seed)
+    key, sk = random.split(key)
+    pos = jft.Vector({"a": 0.1 * random.normal(sk, (2,))})
+    delta = 1e-4
+
+    def call(total, odir, resume, mode, ns):
+        return jft.optimize_kl(
+            lh, pos, key=key, n_total_iterations=total, n_samples=ns,
+            draw_linear_kwargs=dict(cg_name=None, cg_kwargs=dict(absdelta=delta / 10., maxiter=10)),
+            nonlinearly_update_kwargs=dict(minimize_kwargs=dict(name=None, xtol=delta, cg_kwargs=dict(name=None), maxiter=5)),
+            kl_kwargs=dict(minimize_kwargs=dict(name=None, xtol=delta, cg_kwargs=dict(name=None), maxiter=5)),
+            sample_mode=mode, odir=odir, resume=resume)
+
+    def dump(samples, st):
+        return {"pos": hx(samples.pos.tree["a"]),
+                "samples": hx(samples.samples.tree["a"]) if len(samples) else None,
+                "keys": None if samples.keys is None else hx(samples.keys), "state_key": hx(st.key), "nit": int(st.nit)}
+    out = {}
+    for j, (mode, ns, total, cuts) in enumerate(entries):
+        d1 = os.path.join(scratch, "resume_a%d" % j)
+        d2 = os.path.join(scratch, "resume_b%d" % j)
+        for d in (d1, d2):
+            shutil.rmtree(d, ignore_errors=True)
+        ref = dump(*call(total, d1, False, mode, ns))
+        res = None
+        for k, t in enumerate(list(cuts) + [total]):
+            res = call(t, d2, k > 0, mode, ns)
+        out["%s:%d:%d:%s" % (mode, ns, total, "+".join(str(c) for c in cuts))] = {"uninterrupted": ref, "segmented": dump(*res)}
+        for d in (d1, d2):
+            shutil.rmtree(d, ignore_errors=True)
+    return out
+
+
 # ---- execution strategies of the samplers under every form of the solver options ------------------
 
 CG_FORMS = {"absdelta": dict(absdelta=1e-20, maxiter=60), "resnorm": dict(resnorm=1e-11, maxiter=60),
@@ -110,7 +169,9 @@ def jax_strategy(seed, entries):
     [kind, form, variants]; kind 'lin': linear samples with cg_kwargs = CG_FORMS[form]; kind 'nl':
     non-linear samples with minimize_kwargs = NL_FORMS[form] (tight CG).  A variant is
     [linear_minimizer_jit, nonlinear_minimizer_jit, residual_map, jit]; jit-ted minimisers use
-    static_cg / _static_newton_cg, eager ones cg / _newton_cg (the pairs NIFTy offers)."""
+    static_cg / _static_newton_cg, eager ones cg / _newton_cg (the pairs NIFTy offers).  The eager
+    solvers are Python loops over concrete values: they are legal only with the Python-loop map `lmap`
+    (under vmap / smap they would see tracers), so every variant with another map uses the static ones."""
     import logging
     import warnings
 
@@ -139,13 +200,13 @@ def jax_strategy(seed, entries):
         for lin_jit, nl_jit, rmap, jit in variants:
             vi = jft.OptimizeVI(lh, n_total_iterations=1, jit=bool(jit), linear_minimizer_jit=bool(lin_jit),
                                 nonlinear_minimizer_jit=bool(nl_jit), residual_map=rmap)
-            cg = jft.conjugate_gradient.static_cg if (lin_jit or rmap == "smap") else jft.conjugate_gradient.cg
+            cg = jft.conjugate_gradient.static_cg if (lin_jit or rmap != "lmap") else jft.conjugate_gradient.cg
             kw = {}
             if kind == "lin":
                 cgkw, mode = dict(CG_FORMS[form]), "linear_resample"
             else:
                 cgkw, mode = dict(CG_FORMS["absdelta"]), "nonlinear_resample"
-                mini = jft.optimize._static_newton_cg if (nl_jit or rmap == "smap") else jft.optimize._newton_cg
+                mini = jft.optimize._static_newton_cg if (nl_jit or rmap != "lmap") else jft.optimize._newton_cg
                 kw = dict(nonlinearly_update_kwargs=dict(minimize=mini, minimize_kwargs=dict(
                     name=None, cg_kwargs=dict(name=None), **NL_FORMS[form])))
             smp, _ = vi.draw_samples(jft.Samples(pos=pos0, samples=None, keys=None), key=random.PRNGKey(7),
@@ -169,6 +230,9 @@ def main():
         out["jax:%s:%d" % (mode, ns)] = jax_vi(spec["seed"], mode, ns, spec["jax_configs"])
     if spec.get("strategy") and int(sys.argv[3] if len(sys.argv) > 3 else 0) == 0:
         out["strategy"] = jax_strategy(spec["seed"], spec["strategy"])
+    if spec.get("resume") and int(sys.argv[3] if len(sys.argv) > 3 else 0) == 1:
+        import os
+        out["resume"] = jax_resume(spec["seed"], spec["resume"], os.path.dirname(os.path.abspath(sys.argv[2])) + "/p%d" % os.getpid())
     json.dump(out, open(sys.argv[2], "w"))
 
 
